@@ -16,6 +16,29 @@ NA = {
 }
 
 
+TECHNIQUE = {
+    "C01": "static analysis: literal opcode-table extraction compared with a reference ISA matrix; byte-level normal form of packing expressions; finite abstraction of the width chain; guard/def-use facts on the operand parser",
+    "C02": "static analysis: sibling agreement of abstract length terms (emit vs pc_after, supposed_length vs emit) over the class hierarchy; CFG dominance for the pass resets and the length re-check guard",
+    "C03": "static analysis: who-may-call / who-may-write census, accumulate-then-flush typestate on Program.emit, branch-independent assignment facts on set_position",
+    "C04": "static analysis: literal evaluation of the built-in bus definitions against reference data; argument-binding agreement; polynomial normal form of the offset formulas; return/assign facts",
+    "C05": "static analysis: taint-free path from displacement to signed-byte pack, polynomial form of the displacement, must-check (None tests with raising branch dominating the pack)",
+    "C06": "static analysis: order-isomorphism of the precedence table, pop-comparison and evaluation-arm facts, literal-base table, single-evaluator call-site census",
+    "C07": "static analysis: byte-level normal form of data-node packing, three-way keyword/parser/generator agreement, loop-shape and def-use facts",
+    "C08": "static analysis: scope-event typestate on generators, sibling agreement of replay nodes, propositional return facts of the lookup chain, who-may-write census",
+    "C09": "static analysis: ordering of argument evaluation against the scope switch, CFG every-iteration-appends rule, assignment facts on SymbolNode.pc_after",
+    "C10": "static analysis: path-condition facts of the two expansions in generate_if, range/iteration shape and unconditional-expansion rule in generate_for, parser field binding",
+    "C11": "static analysis: byte-level normal form of the record header, CFG rules on the tiling loop (guarded header, advance between records), dominance of the reserved-offset check",
+    "C12": "static analysis: option-to-call def-use per format arm, enum/table exhaustiveness, call-chain and bracket (begin/end) dominance, formatted-field normal forms",
+    "C13": "static analysis: must-check of the length field before the payload read, fixed-size unpack/read agreement, loop-exit path conditions, plumbing agreement",
+    "C14": "static analysis: handler census with disposition classification, CFG reachability from handlers to success exits, error-value consumption, exception-escape obligations over the call graph",
+    "C15": "static analysis: per-loop progress (no variant-free cycle in the CFG) and abstract evaluation under the end-of-input state; run-sentinel and backup-balance typestate",
+    "C16": "static analysis: taint (token text to case-sensitive key) with .lower() as sanitiser; skip-set and look-ahead facts on the scanner; include-as-block rule",
+    "C17": "static analysis: location-argument census of error constructions; typestate 'position read before a newline may be consumed'; single-writer census of line counters and cursor",
+    "C18": "static analysis: loop-shape facts of the longest-match codec, regex parse-tree facts, scope-table return facts",
+    "C19": "static analysis: effect analysis (stores, mutator calls, class-attribute writes, parameter-mutation summaries over the call graph) against a census of process-lifetime objects; guard dominance in Bus.map/unmap",
+}
+
+
 def main() -> None:
     checks = []
     na = []
@@ -44,7 +67,7 @@ def main() -> None:
             "level_note": getattr(mod, "LEVEL_NOTE", "Trusted base: CPython ast/struct.calcsize, the a816lint engine, the reference "
                                   "data under /verif/refdata. Decides the named structural clauses only; residues listed in the "
                                   "evidence file's assumptions are not decided."),
-            "technique": getattr(mod, "TECHNIQUE", "static analysis: repository-specific AST/CFG rules over /repo's source"),
+            "technique": getattr(mod, "TECHNIQUE", TECHNIQUE.get(pid, "static analysis: repository-specific AST/CFG rules over /repo's source")),
         })
     manifest = {
         "version": 1,
